@@ -41,6 +41,7 @@ type CPPlan struct {
 	OptimizeOff bool     `json:"optimize_off,omitempty"`
 	Entry       string   `json:"entry"` // call | eval
 	Rich        bool     `json:"rich_fs,omitempty"`
+	EOL         int      `json:"eol,omitempty"`   // line endings of the source files: 0 = LF, 1 = CRLF, 2 = CRLF on some lines
 	Split       int      `json:"split,omitempty"` // functions with index >= Split (when > 0) live in a second file of the package
 }
 
@@ -433,6 +434,9 @@ func (e crashpoint) genPlan(r *core.PRNG) *CPPlan {
 	if g.nf > 2 && r.Chance(1, 2) {
 		p.Split = 1 + r.Intn(g.nf-1)
 	}
+	if r.Chance(1, 5) {
+		p.EOL = 1 + r.Intn(2)
+	}
 	for i := 0; i < g.nf; i++ {
 		f := CPFunc{Method: i > 0 && r.Chance(1, 3), Variadic: i > 0 && r.Chance(1, 4)}
 		n := 1 + r.Intn(4)
@@ -531,9 +535,24 @@ func (crashpoint) Execute(plan any, keep bool) *core.Result {
 	res := &core.Result{Counters: core.Counters{}}
 	hist := core.NewHistory(keep)
 	rd := cpRender(p)
-	files := []core.DiskFile{{Path: "main/a.go", Data: []byte(rd.Text)}}
+	eol := func(t string) []byte {
+		if p.EOL == 0 {
+			return []byte(t)
+		}
+		lines := strings.SplitAfter(t, "\n")
+		for i, l := range lines {
+			if strings.HasSuffix(l, "\n") && (p.EOL == 1 || (uint64(i)+p.Seed)%3 == 0) {
+				lines[i] = l[:len(l)-1] + "\r\n"
+			}
+		}
+		return []byte(strings.Join(lines, ""))
+	}
+	files := []core.DiskFile{{Path: "main/a.go", Data: eol(rd.Text)}}
 	if rd.TextB != "" {
-		files = append(files, core.DiskFile{Path: "main/b.go", Data: []byte(rd.TextB)})
+		files = append(files, core.DiskFile{Path: "main/b.go", Data: eol(rd.TextB)})
+	}
+	if p.EOL != 0 {
+		res.Counters.Inc("crlf_source")
 	}
 	disk := core.NewSimDisk(files, hist)
 	disk.Rich, disk.Mute = p.Rich, true
@@ -804,6 +823,9 @@ func (crashpoint) Shrink(plan any) []func() any {
 	}
 	if p.Entry == "eval" {
 		mod(func(q *CPPlan) { q.Entry = "call" })
+	}
+	if p.EOL != 0 {
+		mod(func(q *CPPlan) { q.EOL = 0 })
 	}
 	if p.Rich {
 		mod(func(q *CPPlan) { q.Rich = false })
